@@ -606,6 +606,10 @@ def _nmap_method(I, ref, c, name, args, kw):
         if (I.ctx.decide(pres, 'haskey') if is_sym(pres) else pres):
             return I.nmap_select(c, n)
         return d
+    if name == 'values':
+        return I.ctx.alloc(GuardedSeq([(p, c.vals[i]) for i, p in enumerate(c.pres) if p is not False]))
+    if name == 'keys':
+        return I.ctx.alloc(GuardedSeq([(p, NodeV(i)) for i, p in enumerate(c.pres) if p is not False]))
     if name in ('items', 'iteritems'):
         out = []
         for i, p in enumerate(c.pres):
